@@ -4,7 +4,7 @@
     WHICH candidates an atom produces (all occurrences / engine matches, each matching at its position)
     is the subject of C01; here it appears as the hypothesis on the candidate list. *)
 From ZV Require Import Lib.Base Lib.GoSearch Lib.RuneCount Model.Lines Model.Ranges
-  Proofs.RuneCountProofs Proofs.LinesMatch Proofs.LinesChunk Proofs.LinesBreakCover Proofs.RangesLineMode Proofs.RangesGather Proofs.RangesOffsets Proofs.RangesFind Proofs.RangesBoundary Proofs.RangesWord Generated.RangesConsts.
+  Proofs.RuneCountProofs Proofs.LinesMatch Proofs.LinesChunk Proofs.LinesBreakCover Proofs.RangesLineMode Proofs.RangesGather Proofs.RangesOffsets Proofs.RangesFind Proofs.RangesBoundary Proofs.RangesWord Generated.RangesConsts Generated.RangesWordBytes.
 From ZV Require Lib.Utf8.
 From Coq Require Import Sorting.Sorted Sorting.Permutation.
 
@@ -99,6 +99,19 @@ Theorem C02_word_line_mode : forall nl data name ctx w, (0 <= ctx)%Z -> w <> [] 
        ((exists o, In o (word_offsets w data) /\ o <= p < o + length w) /\ nth_error data p <> Some 10%N)).
 Proof. exact word_line_mode. Qed.
 Print Assumptions C02_word_line_mode.
+
+(** ... the same for a FILE-NAME query (wordMatchTree{fileName: true} scans the name): the candidates of either class pass
+    gatherMatches unchanged *)
+Theorem C02_word_ranges_any_class : forall fn nl w data, w <> [] -> word_offsets w data <> [] ->
+  gather nl (word_cands fn w data) = word_cands fn w data.
+Proof. exact word_ranges_any_class. Qed.
+Print Assumptions C02_word_ranges_any_class.
+
+(** the word characters of the model are those of the code: [word_bytes] (Generated/RangesWordBytes.v) is the table of bits.go
+    characterClass, regenerated on every run by evaluating it on all 256 byte values of the tree under test *)
+Theorem C02_word_class_table : forall c, (c < 256)%N -> is_word_byte c = existsb (N.eqb c) word_bytes.
+Proof. exact word_class_table. Qed.
+Print Assumptions C02_word_class_table.
 
 (** the resume offset matters: resuming at relEndOffset + 1 after an accepted occurrence (round-3 red-team change, "the
     byte after an accepted occurrence is on the far side of a word boundary") is NOT the regexp semantics *)
@@ -326,3 +339,9 @@ Example ex_word_adjacent :
   word_offsets [45; 102; 111; 111]%N [45; 102; 111; 111; 32; 97; 45; 102; 111; 111]%N = [6] /\
   word_scan_skip1 [46; 103; 101; 116]%N [120; 46; 103; 101; 116; 46; 103; 101; 116]%N 0 10 = [1].
 Proof. vm_compute. repeat split; reflexivity. Qed.
+
+(* file-name class: \bgo\b in the name "a.go go": 2 and 5; the class table: '_' (95) and 'z' (122) are word bytes, 0xE9 and '-' are not *)
+Example ex_word_filename : gather 7 (word_cands true [103; 111]%N [97; 46; 103; 111; 32; 103; 111]%N)
+  = [ {| c_fn := true; c_off := 2; c_sz := 2 |}; {| c_fn := true; c_off := 5; c_sz := 2 |} ] /\
+  map is_word_byte [95; 122; 233; 45]%N = [true; true; false; false].
+Proof. vm_compute. split; reflexivity. Qed.
